@@ -717,7 +717,10 @@ def c11(ck):
     ck.extra["selftest_corrupted_globals_trace_rejections"] = corrupt_selftest(ck, "TraceRW", rw, mutrw)
     # race detector
     racelog = os.path.join(ck.scratch, "race")
-    ck.harness(["replay", "-repeat", "2"], r.cases[:: (3 if q else 1)], race=True, timeout=3000,
+    # all sets made only of the programs that derive values from shared globals, and every 3rd of the others
+    derive = [c_ for c_ in r.cases if all(" sv" in t_ or " sl" in t_ or " sm" in t_ or " sr" in t_ for t_ in c_["texts"])]
+    rest_ = [c_ for c_ in r.cases if c_ not in derive]
+    ck.harness(["replay", "-repeat", "2"], derive + rest_[:: (3 if q else 1)], race=True, timeout=3000,
                env={"GORACE": "log_path=%s halt_on_error=0 exitcode=0" % racelog})
     ck.harness(["globals", "-n", str(40 if q else 400), "-seed", str(ck.seed + 7), "-out", os.path.join(ck.scratch, "globals-race.ndjson")],
                race=True, timeout=3000, env={"GORACE": "log_path=%s halt_on_error=0 exitcode=0" % racelog})
